@@ -54,7 +54,7 @@ func infoOf(c *database.Command) docInfo {
 	}
 	fw := firstWord(c.Command)
 	di.toolKnown = certainTools[fw]
-	di.nonsense = strings.HasPrefix(fw, "zq")
+	di.nonsense = strings.HasPrefix(fw, "zq") || strings.Contains(fw, "zqzq") // made-up names, some beginning or ending like a real tool
 	cmd := c.Command
 	di.pipe = c.Pipeline || strings.Contains(cmd, "|") || strings.Contains(cmd, "&&") || strings.Contains(cmd, ">>") ||
 		strings.Contains(strings.ToLower(cmd), "pipe")
@@ -198,6 +198,47 @@ func tieCommands() []database.Command {
 	return out
 }
 
+// uniqWords: made-up words, one per entry of the "uniq" corpus; a word with one letter dropped is not a token of
+// the index and occurs as a subsequence in (next to) no other entry
+var uniqWords = []string{"blorptak", "cemvudiz", "dwyfnosk", "fyxgrelm", "ghulvamp", "hjenkwis", "jopmzarb", "kravdyxo", "lumqesti",
+	"mwibhonc", "nyzkoplu", "pserdwaf", "quilmbex", "rhaxtovi", "sbegnuly", "tuzwimka", "vogpcyre", "wixjadum"}
+
+// uniqCommands: two entries with very short texts first, then one entry per (declared platforms, tool) combination
+func uniqCommands() []database.Command {
+	out := []database.Command{{Command: "ls"}, {Command: "x", Description: "y"}}
+	k := 0
+	for _, decl := range declPalette {
+		for _, tool := range []bool{false, true} {
+			w := uniqWords[k]
+			first := "zq" + fmt.Sprint(k) + "u"
+			if tool {
+				first = []string{"git", "docker", "curl"}[k%3]
+			}
+			out = append(out, database.Command{Command: first + " " + w, Description: "Entry about " + w, Keywords: []string{w}, Platform: decl})
+			k++
+		}
+	}
+	return out
+}
+
+// platCommands: made-up programs whose names begin or end like a recognised tool (gitzqzq3, zqzqcurl, docker-zqzq5 ...):
+// none of them is that tool, so a declared foreign platform excludes them
+func platCommands() []database.Command {
+	var out []database.Command
+	k := 0
+	for _, decl := range declPalette {
+		for _, tool := range []string{"git", "docker", "curl", "python", "npm", "find", "ls", "ssh"} {
+			for v := 0; v < 3; v++ {
+				k++
+				first := []string{tool + "zqzq" + fmt.Sprint(k), "zqzq" + tool, tool + "-zqzq" + fmt.Sprint(k)}[v]
+				out = append(out, database.Command{Command: first + " frobnicate --widget " + fmt.Sprint(k), Description: fmt.Sprintf("Frobnicate the widget number %d", k),
+					Keywords: []string{"frobnicate", "widget"}, Platform: decl})
+			}
+		}
+	}
+	return out
+}
+
 var corpusCache = map[string]*corpusT{}
 
 func getCorpus(name string) *corpusT {
@@ -226,6 +267,10 @@ func getCorpus(name string) *corpusT {
 		c = loadCorpus("bigtie", cmds)
 	case "empty":
 		c = loadCorpus("empty", nil)
+	case "uniq":
+		c = loadCorpus("uniq", uniqCommands())
+	case "plat":
+		c = loadCorpus("plat", platCommands())
 	case "shipped":
 		c = shippedCorpus()
 	default:
@@ -255,6 +300,44 @@ type scenario struct {
 	Raw     string   `json:"raw,omitempty"`
 	Cap     int      `json:"cap,omitempty"`
 	BoostV  int      `json:"boostvar,omitempty"` // which context-boost map (same terms, permuted / different values)
+	// Prime: a search with one option changed is issued on the same (long-lived) database / cache object just
+	// before the search under test, so anything the engine remembers between searches is exercised
+	Prime string `json:"prime,omitempty"`
+}
+
+var primeKinds = []string{"nocross", "allplat", "ponly", "limit0", "limitbig", "nlp", "plats", "thr"}
+
+// primed: the options of the priming search (the scenario with one option changed)
+func (s scenario) primed() scenario {
+	t := s
+	t.Prime = ""
+	switch s.Prime {
+	case "nocross":
+		t.NoCross = !s.NoCross
+	case "allplat":
+		t.AllPlat = !s.AllPlat
+	case "ponly":
+		t.POnly = !s.POnly
+	case "limit0":
+		t.Limit = 0
+	case "limitbig":
+		t.Limit = s.Limit + 7
+	case "nlp":
+		t.NLP = !s.NLP
+	case "plats":
+		if len(s.Plats) == 0 {
+			t.Plats = []string{"windows"}
+		} else {
+			t.Plats = nil
+		}
+	case "thr":
+		if s.Thr == 0 {
+			t.Thr = -30
+		} else {
+			t.Thr = 0
+		}
+	}
+	return t
 }
 
 func (s scenario) options() database.SearchOptions {
@@ -359,27 +442,41 @@ func runEntry(c *corpusT, s scenario, q string) (out runOut, first *runOut) {
 		}
 	}()
 	o := s.options()
+	prime := func(f func(po database.SearchOptions)) {
+		if s.Prime == "" {
+			return
+		}
+		defer func() { recover() }() // a crash of the priming search belongs to its own scenario
+		f(s.primed().options())
+	}
 	switch s.Entry {
 	case "universal":
+		prime(func(po database.SearchOptions) { c.db.SearchUniversal(q, po) })
 		out.hits = toHits(c.db.SearchUniversal(q, o))
 	case "search":
 		out.hits = toHits(c.db.Search(q, s.Limit))
 	case "pipeline":
+		prime(func(po database.SearchOptions) { c.db.SearchWithPipelineOptions(q, po) })
 		out.hits = toHits(c.db.SearchWithPipelineOptions(q, o))
 	case "legacynlp": // deprecated public entry points, still part of the engine's API
+		prime(func(po database.SearchOptions) { c.db.SearchWithNLP(q, po) })
 		out.hits = toHits(c.db.SearchWithNLP(q, o))
 	case "legacyfuzzy":
+		prime(func(po database.SearchOptions) { c.db.SearchWithFuzzy(q, po) })
 		out.hits = toHits(c.db.SearchWithFuzzy(q, o))
 	case "legacyoptions":
+		prime(func(po database.SearchOptions) { c.db.SearchWithOptions(q, po) })
 		out.hits = toHits(c.db.SearchWithOptions(q, o))
 	case "cached":
 		cdb := database.VerifNewCachedDatabase(c.db, 50, 0)
+		prime(func(po database.SearchOptions) { cdb.SearchWithOptionsAndCache(q, po) })
 		f := runOut{hits: toHits(cdb.SearchWithOptionsAndCache(q, o))}
 		first = &f
 		out.hits = toHits(cdb.SearchWithOptionsAndCache(q, o))
 		out.path = "cached"
 	case "monitored":
 		mdb := database.VerifNewMonitoredDatabase(c.db, 50, 0)
+		prime(func(po database.SearchOptions) { mdb.SearchWithOptionsAndMonitoring(q, po) })
 		f := runOut{hits: toHits(mdb.SearchWithOptionsAndMonitoring(q, o))}
 		first = &f
 		out.hits = toHits(mdb.SearchWithOptionsAndMonitoring(q, o))
@@ -591,7 +688,8 @@ func (in *interner) attrs(c *corpusT, s scenario, q string, hs []hit) [][]int {
 func certainlyEligibleSubseq(c *corpusT, s scenario, q string) bool {
 	for _, di := range c.info {
 		pc := platClass(di, s.Plats)
-		okPlat := s.AllPlat || pc == 0 || pc == 1
+		// in force / undeclared, or qualifying through the cross-platform tag or the tool rule while those are not excluded
+		okPlat := s.AllPlat || pc == 0 || pc == 1 || ((pc == 2 || pc == 3) && !s.NoCross)
 		okPipe := !s.POnly || di.pipe
 		if okPlat && okPipe && isSubseq(q, di.text) && matchQuality(q, di.text) > -9999 {
 			return true
